@@ -244,15 +244,23 @@ class SimA(Simulator):
                 uod = "".join(rng.choice(NAME_ALPHABET) for _ in range(rng.randint(1, 2)))
             engines[f"E{i + 1}"] = [comp, uod]
         names = list(engines)
+        if rng.random() < 0.4:
+            # a second installation with exactly the same computer and UOD name (it must never get the id while the
+            # first one is connected)
+            engines["E9"] = list(engines[rng.choice(names)])
+            names.append("E9")
         for _ in range(rng.randint(2, 10)):
             e = rng.choice(names)
             r = rng.random()
-            if r < 0.5:
+            if r < 0.45:
                 ops.append(["register", e])
-            elif r < 0.8:
+            elif r < 0.75:
                 ops.append(["connect", e])
-            else:
+            elif r < 0.9:
                 ops.append(["disconnect", e])
+            else:
+                # the aggregator restarts; engines keep their id and reconnect without registering again
+                ops.append(["restart", rng.choice(["graceful", "crash"])])
         return {"cfg": {"engines": engines}, "ops": ops}
 
     def shrink(self, plan: dict) -> Iterator[dict]:
